@@ -358,6 +358,10 @@ class Interp(object):
         if k == 'StringLiteral':
             oid = self.string_obj(st, e)
             return [(st, oid, ZERO, self.ty(e))]
+        if k == 'PredefinedExpr':
+            inner = [c for c in e.get('inner', []) if isinstance(c, dict) and 'kind' in c]
+            if inner:
+                return self.lval(st, inner[0])
         if k == 'CompoundLiteralExpr':
             ty = self.ty(e)
             oid = 'cl:%s:%s' % (self.fn, e.get('_line'))
@@ -592,6 +596,79 @@ class Interp(object):
         if name in ('alignof', '_Alignof', '__alignof'):
             return [(st, Val(self.ty(e), C(t.rec.align if t.kind == 'rec' else max(1, t.size))))]
         raise Unsupported('type trait ' + str(name))
+
+    def r_PredefinedExpr(self, st, e):
+        inner = [c for c in e.get('inner', []) if isinstance(c, dict) and 'kind' in c]
+        if not inner:
+            raise Unsupported('predefined expression without a literal')
+        return self.rval(st, inner[0])
+
+    def r_GenericSelectionExpr(self, st, e):
+        # the association clang selected (the choice is made on types at compile time)
+        for c in e.get('inner', [])[1:]:
+            if isinstance(c, dict) and c.get('selected'):
+                inner = [x for x in c.get('inner', []) if isinstance(x, dict) and 'kind' in x and not x['kind'].endswith('Type')]
+                if inner:
+                    return self.rval(st, inner[-1])
+        raise Unsupported('_Generic: selected association not found')
+
+    def r_StmtExpr(self, st, e):
+        body = e['inner'][0]
+        kids = [c for c in body.get('inner', []) if isinstance(c, dict)]
+        if not kids:
+            return [(st, Val(self.ty(e), ZERO))]
+        cur = [st]
+        for c in kids[:-1]:
+            nxt = []
+            for s2 in cur:
+                for s3, ctl in self.exec_stmt(s2, c):
+                    if ctl is not None:
+                        raise Unsupported('control transfer out of a statement expression')
+                    nxt.append(s3)
+            cur = nxt
+        out = []
+        last = kids[-1]
+        for s2 in cur:
+            if last['kind'].endswith(('Expr', 'Operator', 'Literal')):
+                out.extend(self.rval(s2, last))
+            else:
+                for s3, ctl in self.exec_stmt(s2, last):
+                    if ctl is not None:
+                        raise Unsupported('control transfer out of a statement expression')
+                    out.append((s3, Val(self.ty(e), ZERO)))
+        return out
+
+    def r_OffsetOfExpr(self, st, e):
+        """offsetof(type, member[.member...]) - clang's JSON dump carries neither the type nor the member designator, so they
+        are read from the source text at the expression's location and resolved against the record layout."""
+        import re as _re
+        b = (e.get('range') or {}).get('begin') or {}
+        loc = b.get('expansionLoc') or b
+        path, line, col = e.get('_file'), loc.get('line') or e.get('_line'), loc.get('col')
+        if 'file' in loc:
+            path = loc['file']
+        if path and not os.path.isabs(path):
+            from .facts import REPO as _REPO
+            path = os.path.join(_REPO, path)
+        try:
+            src = open(path, errors='replace').read().split('\n')
+            text = ' '.join(src[line - 1:line + 3])[max(0, (col or 1) - 1):]
+        except Exception as ex:
+            raise Unsupported('offsetof: source text not available (%s)' % ex)
+        m = _re.match(r'\s*(?:offsetof|__builtin_offsetof)\s*\(\s*([^,]+?)\s*,\s*([A-Za-z_][\w.]*)\s*\)', text)
+        if not m:
+            raise Unsupported('offsetof: cannot read the designator at %s:%s' % (path, line))
+        t = self.ix.parse_type(m.group(1))
+        off = 0
+        for part in m.group(2).split('.'):
+            if t.kind != 'rec':
+                raise Unsupported('offsetof into non-record type')
+            f = t.rec.field(part)
+            if f is None or f[1] is None:
+                raise Unsupported('offsetof: no field %s' % part)
+            off += f[1]
+            t = self.ix.parse_type(f[2])
+        return [(st, Val(self.ty(e), C(off)))]
 
     def r_DeclRefExpr(self, st, e):
         rd = e['referencedDecl']
